@@ -1036,10 +1036,39 @@ func c04LoopLayer(thorough bool) c04Layer {
 	return c04ListLayer("loops", cs)
 }
 
+// c04WedgeDecls: the function the wedge probe recurses through; c04WedgeProbe: a second probe route that needs nearly
+// all of the evaluation depth a request may use (the deepest recursion that is answered on a fresh runtime is found by
+// the harness at start-up).  One failing request per failure mechanism is repeated c04WedgeRepeats times on one
+// runtime; afterwards both probes must be answered as on a fresh runtime: a limit that is not given back, a counter
+// that only grows, a pool that leaks one slot per failure show up here and nowhere in single-request cases.
+var c04WedgeDecls = []string{"! zzdown(n: int): int {", "  if n <= 0 {", "    > 0", "  }", "  > 1 + zzdown(n - 1)", "}"}
+
+const c04WedgeRepeats = 520
+
+func c04WedgeLayer() c04Layer {
+	var cs []c04Case
+	add := func(group string, body ...string) {
+		cs = append(cs, c04Case{Decls: c04WedgeDecls, Body: body, Group: group, Wedge: true, NoVMRaw: true})
+	}
+	add("depth-limit", "> zzdown(100000)")
+	// (a loop ended by the iteration limit costs about 10^6 iterations per request: repeated 8 times only)
+	add("loop-limit", "$ i = 0", "while true {", "  i = i + 1", "}", "> i")
+	cs[len(cs)-1].Repeats = 8
+	add("division-by-zero", "$ z = 0", "> 1 / z")
+	add("type-error", "> 1 + true")
+	add("undefined-function", "> zznone(1)")
+	add("index-out-of-range", "$ a = [1]", "> a[5]")
+	add("status-range", "> text(\"x\", 99)")
+	add("guard-4xx", "? 1 > 2 :: 422", "> 1")
+	add("await-rejected", "$ f = async {", "  > 1 / 0", "}", "> await f")
+	add("deep-then-error", "> zzdown(200) + true")
+	return c04ListLayer("wedge", cs)
+}
+
 func c04Layers(thorough bool) []c04Layer {
 	return []c04Layer{
 		// the expensive layers come first so that a time cap cuts the tail of the largest cheap layer instead
-		c04LoopLayer(thorough), c04CyclicLayer(), c04DeepLayer(), c04AsyncLayer(),
+		c04LoopLayer(thorough), c04WedgeLayer(), c04CyclicLayer(), c04DeepLayer(), c04AsyncLayer(),
 		c04OpsLayer(), c04AccessLayer(), c04PatternLayer(), c04FunctionLayer(), c04MiscLayer(),
 		c04StmtLayer(thorough), c04MethodLayer(thorough), c04ProviderLayer(thorough), c04RequestLayer(thorough), c04BuiltinLayer(thorough),
 	}
